@@ -89,7 +89,12 @@ impl HasExtraState<bool> for SpanInfo {
 
 // -----------------------------------------------------------------------------
 
+#[cfg(not(feature = "verif"))]
 nom_packrat::storage!(AnyNode, bool, 1024);
+#[cfg(feature = "verif")]
+pub mod verif;
+#[cfg(feature = "verif")]
+pub(crate) use verif::PACKRAT_STORAGE;
 
 pub fn sv_parser(s: Span) -> IResult<Span, SourceText> {
     init();
@@ -117,6 +122,8 @@ pub fn pp_parser(s: Span) -> IResult<Span, PreprocessorText> {
 }
 
 fn init() {
+    #[cfg(feature = "verif")]
+    verif::point("init");
     nom_packrat::init!();
     clear_directive();
     clear_version();
